@@ -774,6 +774,11 @@ fn line_of(kind: u32, k: usize, rng: &mut Rng) -> String {
         9 => format!("u8:ffcf2{:x}:{:x}", k % 16, rng.u8()),
         10 => rng.pick(&["u8:zz:1", "u8:ffcf20:100", "u8:ffcf20:-1", "u8:ffcf20", "u8:ffcf20:1:2", "u8::", "u8:1000000:5", "u8:200000:5", "ioport:c:1", "ioport:0:1", "ioport:1:1ff", "ioport:1", "ioport:g:1", "u8:ffcf20:g"]).to_string(),
         11 => format!("u8:FFFFD0:{:X}", 0xc0 + (k % 5) as u8), // upper-case hex
+        // port 3 interplay: direction, data and pin lines over tiny value sets, so that a pin line often names
+        // exactly what DR currently shows, outputs are switched back to inputs, ... (every line acts once)
+        13 => format!("u8:fee002:{:x}", rng.pick(&[0xf0u8, 0x0f, 0x00, 0xff])),
+        14 => format!("u8:ffffd2:{:x}", rng.pick(&[0xa0u8, 0xa5, 0x05, 0x5a])),
+        15 => format!("ioport:3:{:x}", rng.pick(&[0xa5u8, 0xa0, 0x05, 0x00, 0xff])),
         _ => format!("u8:ffffd{:x}:{:x}", 1 + k % 9, rng.u8()),  // DR of a port that is still all inputs
     }
 }
@@ -837,8 +842,14 @@ pub fn run_sock_replay(args: &Args) -> Result<()> {
                     schedule.extend(batches);
                 } else {
                     // random: long sequences, big batches (more than 16 lines in one poll), empty polls between
-                    let nbatch = 1 + rng.below(6);
+                    let portmix = !fuzz && k % 3 == 0;
+                    let nbatch = if portmix { 4 + rng.below(8) } else { 1 + rng.below(6) };
                     for _ in 0..nbatch {
+                        if portmix {
+                            let b: Vec<String> = (0..1 + rng.below(3)).map(|i| line_of(13 + rng.below(3) as u32, k + i, &mut rng)).collect();
+                            schedule.push(b);
+                            continue;
+                        }
                         let n = match rng.below(5) {
                             0 => 0,
                             1 => 1,
